@@ -41,20 +41,25 @@ def demo():
     return rc, m, out[-1500:]
 
 
+RECHECK = "--recheck" in sys.argv and os.path.exists(DST + "/meta.json")
 meta = {"id": sid, "property": prop, "source": "sub-agent given only the property text and a scratch worktree"}
 sh("git checkout -- . && git clean -fdq -e out -e target")
-shutil.copy("%s/mut%s_demo.rs" % (OUT, n), "%s/tests/mut%s_demo.rs" % (WT, n))
-rc0, m0, tail0 = demo()
-meta["demo_without_patch"] = {"rc": rc0, "results": m0}
-rc, out = sh("git apply out/mut%s.diff" % n)
-meta["patch_applies"] = rc == 0
-rc1, m1, tail1 = demo()
-meta["demo_with_patch"] = {"rc": rc1, "results": m1, "tail": tail1[-600:]}
-os.remove("%s/tests/mut%s_demo.rs" % (WT, n))
-compiled, passed, unexpected = suite()
-meta["suite_with_patch"] = {"compiles": compiled, "passed": passed, "unexpected_failures": unexpected}
-sh("git checkout -- . && git clean -fdq -e out -e target")
-meta["confirmed"] = bool(meta["patch_applies"] and rc0 == 0 and rc1 != 0 and compiled and not unexpected)
+if RECHECK:
+    # confirmation was done before: only run the checks again (e.g. after strengthening them)
+    meta = json.load(open(DST + "/meta.json"))
+if not RECHECK:
+  shutil.copy("%s/mut%s_demo.rs" % (OUT, n), "%s/tests/mut%s_demo.rs" % (WT, n))
+  rc0, m0, tail0 = demo()
+  meta["demo_without_patch"] = {"rc": rc0, "results": m0}
+  rc, out = sh("git apply out/mut%s.diff" % n)
+  meta["patch_applies"] = rc == 0
+  rc1, m1, tail1 = demo()
+  meta["demo_with_patch"] = {"rc": rc1, "results": m1, "tail": tail1[-600:]}
+  os.remove("%s/tests/mut%s_demo.rs" % (WT, n))
+  compiled, passed, unexpected = suite()
+  meta["suite_with_patch"] = {"compiles": compiled, "passed": passed, "unexpected_failures": unexpected}
+  sh("git checkout -- . && git clean -fdq -e out -e target")
+  meta["confirmed"] = bool(meta["patch_applies"] and rc0 == 0 and rc1 != 0 and compiled and not unexpected)
 
 shutil.copy("%s/mut%s.diff" % (OUT, n), DST + "/patch.diff")
 shutil.copy("%s/mut%s_demo.rs" % (OUT, n), DST + "/demo.rs")
@@ -83,6 +88,9 @@ if meta["confirmed"]:
                     results[cid]["replay_excerpt"] = json.dumps(rp.get("failing_input") or rp.get("no_longer_checks"))[:700]
     finally:
         subprocess.run("git checkout -- . && git clean -fdq -e out -e target", cwd=WT, shell=True)
+prev = meta.get("checks", {}) if RECHECK and checks else {}
+prev.update(results)
+results = prev
 meta["checks"] = results
 meta["caught_by"] = sorted(c for c, r in results.items() if r["rc"] != 0)
 meta["caught_by_target_property"] = prop in meta["caught_by"]
